@@ -148,7 +148,10 @@ def judge(run: Run, traces, label):
 
 def campaign(tier, seed):
     cfgs = sc.configs(tier, seed, flavours=("default",), stats=("s0", "s2m"), max_n=(220 if tier == "quick" else 2500))
-    return [c for c in cfgs]
+    # an involutive equivalence among the expansion strategies: the two-way rule a <-> b is followed by b <-> a (both flavours
+    # must store, report and hand back both directions)
+    cfgs += sc.configs(tier, seed, flavours=("default",), packs=["swapexp"], stats=("s0", "s2"), max_n=(12 if tier == "quick" else 200))
+    return list(dict.fromkeys(cfgs))
 
 
 def run(tier: str, seed: int) -> int:
